@@ -538,6 +538,8 @@ func genFacts(repo string) string {
 	straightFacts(files["metadata.go"], "metadataHandle", "metadataHandle_seq", consts, &out)
 	straightFacts(files["identityprovider.go"], "certificateHandleFunc", "certificateHandle_seq", consts, &out)
 	straightFacts(files["xml.go"], "InflateAndDecode", "inflateAndDecode_seq", consts, &out)
+	straightFacts(files["xml.go"], "DecodeAuthNRequest", "decodeAuthNRequest_seq", consts, &out)
+	straightFacts(files["xml.go"], "DecodeLogoutRequest", "decodeLogoutRequest_seq", consts, &out)
 	out.WriteString("(* composite-literal fields of the metadata builders, routes *)\n")
 	pairList(&out, "idp_metadata_kv", kvFacts(funcDeclRecv(files["metadata.go"], "IdentityProviderConfig", "getMetadata"), "IdentityProviderConfig.getMetadata"))
 	pairList(&out, "entity_metadata_kv", kvFacts(funcDeclRecv(files["metadata.go"], "Config", "getMetadata"), "Config.getMetadata"))
@@ -550,6 +552,10 @@ func genFacts(repo string) string {
 	pairList(&out, "logout_response_kv", kvFacts(funcDecl(files["logout.go"], "logoutHandleFunc"), "logoutHandleFunc"))
 	pairList(&out, "attrquery_response_args", callArgs(funcDecl(files["attribute_query.go"], "attributeQueryHandleFunc"), "makeAttributeQueryResponse"))
 	pairList(&out, "idp_getmetadata_calls", callArgsAll(funcDeclRecv(files["identityprovider.go"], "IdentityProvider", "GetMetadata")))
+	pairList(&out, "decodeAuthNRequest_calls", callArgsAll(funcDecl(files["xml.go"], "DecodeAuthNRequest")))
+	pairList(&out, "decodeLogoutRequest_calls", callArgsAll(funcDecl(files["xml.go"], "DecodeLogoutRequest")))
+	pairList(&out, "sso_decode_call", callArgs(funcDecl(files["sso.go"], "ssoHandleFunc"), "xml.DecodeAuthNRequest"))
+	pairList(&out, "logout_decode_call", callArgs(funcDecl(files["logout.go"], "logoutHandleFunc"), "xml.DecodeLogoutRequest"))
 	pairList(&out, "endpoint_absolute_src", returnExprs(funcDeclRecv(files["endpoint.go"], "Endpoint", "Absolute")))
 	pairList(&out, "endpoint_relative_src", returnExprs(funcDeclRecv(files["endpoint.go"], "Endpoint", "Relative")))
 	return out.String()
